@@ -291,6 +291,8 @@ def run(chk):
                             for x_, y_ in ((a_, b_), (b_, a_)):
                                 if is_cut(x_) and y_ == ("const", 0):
                                     k = "E"      # the suffix starts at 0: host and rp id are equal
+                                elif x_ == rest and y_ in (("const", ""), ("const", b"")):
+                                    k = "E"      # `rest == ""` (a string pattern): the remainder is empty
                                 elif isinstance(x_, tuple) and len(x_) == 3 and x_[0] == "elem_at" and strip_bytes(x_[1]) == HOST and is_cut_minus_one(x_[2]) and y_ == ("const", 46):
                                     k = "D"      # the byte just before the suffix is '.'
                                 elif is_callee(x_, "slice::first") and strip_bytes(x_[2][0]) == rp_term and y_ == normal.some(("const", 46)):
